@@ -20,13 +20,25 @@ def gen(ctx, name, alphabet, labels, maxn, filters):
     return cases
 
 
+def gen_long(ctx, name, alphabet, maxperiod, lens, filters):
+    cfg = vlib.cfg_text(constants={"Alphabet": set(alphabet), "MaxPeriod": maxperiod, "Lens": set(lens),
+                                   "Filters": "{" + ", ".join('"%s"' % f for f in filters) + "}"},
+                        invariants=["Meta", "Emit"])
+    res = vlib.tlc(f"C15-genlong-{name}", "Gen_FilterLong", cfg, timeout=3000)
+    if res["violated"]:
+        raise vlib.ToolError(f"Gen_FilterLong {name}: meta-property {res['violated']} fails on the specification")
+    cases = vlib.nonempty(vlib.cases_from(res["out"]), "Gen_FilterLong " + name)
+    ctx.add_tlc(res, f"Gen_FilterLong {name}: {len(cases)} periodic sentences of lengths {sorted(lens)} x filters {filters}")
+    return cases
+
+
 def run(ctx):
     binp = vlib.build_harness()
     q = ctx.quick
     ctx.rule = ("every sentence over the family alphabet up to the length bound x every label vector: (a) grapheme filter over 15 "
                 "class representatives (CR LF Control Extend ZWJ RI Prepend SpacingMark L V T LV LVT ExtPict Other), UAX#29 rules "
                 "transcribed in VpFilters; (b) six character-type filters over {1,a,あ,ア,漢,§}; (c) line-break filter over "
-                "{a,CR,LF,あ}; (d) pattern tagger over rule tables; each filter applied twice (idempotence); non-trivial = case in "
+                "{a,CR,LF,あ}; (c') periodic sentences of 15..34 (thorough ..65) characters; (d) pattern tagger over rule tables; each filter applied twice (idempotence); non-trivial = case in "
                 "which the filter changes at least one label or tag")
     plans = [
         ("grapheme", GCL, {1}, 3 if q else 4, ["G"]),
@@ -34,10 +46,18 @@ def run(ctx):
         ("types", TYPES, {0, 1, 2}, 3 if q else 4, ["D", "R", "H", "T", "K", "O"]),
         ("linebreak", [97, 13, 10, 12354], {0, 1, 2}, 4 if q else 5, ["L"]),
         ("linebreak-lookalikes", [97, 10, 13, 11, 12, 0x85, 0x2028, 9], {0, 2}, 3 if q else 4, ["L"]),
+        # cluster-extending characters whose CHARACTER TYPE is not Other (half-width voiced marks are Katakana), in sentences
+        # without any Other-type character
+        ("grapheme-kana-marks", [0xFF76, 0xFF9E, 0xFF9F, 12459, 12441, 97], {1, 2}, 3 if q else 4, ["G", "T"]),
     ]
+    generated = [(name, gen(ctx, name, alpha, labels, maxn, filters)) for name, alpha, labels, maxn, filters in plans]
+    # long sentences: lengths around the multiples of 8 / 16 / 32
+    lens = [15, 16, 17, 18, 33] if q else [7, 8, 9, 15, 16, 17, 18, 31, 32, 33, 34, 65]
+    generated.append(("long-types", gen_long(ctx, "types", TYPES, 2 if q else 3, lens, ["D", "R", "H", "T", "K", "O"])))
+    generated.append(("long-grapheme", gen_long(ctx, "grapheme", [97, 769, 8205, 128104, 127471, 13, 10, 0xFF9E], 2 if q else 3, lens, ["G", "L"])))
     hcases = []
-    for name, alpha, labels, maxn, filters in plans:
-        for c in gen(ctx, name, alpha, labels, maxn, filters):
+    for name, cases_ in generated:
+        for c in cases_:
             ops, exp = [], []
             base = {"text": c["text"], "types": c["types"], "ntags": 0}
             changed = False
